@@ -26,10 +26,14 @@ Record authin := AuthIn {
   a_argc : nat;                 (* parameters of the method incl. the sender *)
   a_fn : list N;                (* function name *)
   a_args : list (list N);       (* arguments after the function name *)
-  a_cc : list N; a_ch : list N; (* name of this chaincode (from the signed proposal) and channel *)
+  a_cc : list N; a_ch : list N; (* the chaincode id found in the proposal payload's invocation spec - written by whoever
+                                   submits the proposal, no peer checks it - and the channel the stub reports *)
   a_acl : acl_reply;            (* what the access-control service answers for the presented key list *)
   a_keys : list (list N * keyinfo);   (* presented key string -> identity (absent: not a key) *)
-  a_sigs : list sigv            (* symbolic content of the signature positions *)
+  a_sigs : list sigv;           (* symbolic content of the signature positions *)
+  a_routed : option (list N)    (* the chaincode name of the proposal's header extension: the name the peer has validated and
+                                   routed the proposal by, i.e. the name of THIS chaincode (None: a proposal without header,
+                                   as the repository's mock ledger builds it) *)
 }.
 
 Definition lookup_key (tbl : list (list N * keyinfo)) (s : list N) : option keyinfo :=
@@ -80,6 +84,7 @@ Definition auth (i : authin) : res authout :=
   let s := ((length args - expected) / 2)%nat in
   if (s =? 0)%nat then Err ENotSigned else
   if negb (bool_decide (nth 1 args [] = a_cc i)) then Err EName else
+  if negb (match a_routed i with Some r => bool_decide (nth 1 args [] = r) | None => true end) then Err EName else
   if negb (bool_decide (nth 2 args [] = a_ch i)) then Err EName else
   match a_acl i with
   | AclFail => Err EAcl
